@@ -1742,11 +1742,9 @@ func init() {
 			}
 		}})
 
-	register(&Rule{ID: "P.norm", Min: 1, Text: "one decoder for a presence: in package converter the data of an api.Presence message is read (GetData / the Data field) in one function only, the one that turns an absent map into an empty one; every other decoder (the snapshot's presence map, a presence change) goes through it. Read directly on one path, a participant that attached without initial presence is {} on a replica that pulled changes and nil on one that pulled a snapshot: AllPresences() differ, Presences() skips it, and its own next Set panics on a nil map",
+	register(&Rule{ID: "P.norm", Min: 1, Text: "an absent presence map is an empty one on every path: in package converter every decoder that reads the data of an api.Presence message (GetData / the Data field) tests what it read for nil (and substitutes an empty map); the others go through such a decoder. Read without the test on one path, a participant that attached without initial presence is {} on a replica that pulled changes and nil on one that pulled a snapshot: AllPresences() differ, Presences() skips it, and its own next Set panics on a nil map",
 		Run: func(x *Ctx) {
 			n := 0
-			var readers []string
-			var at = map[string]string{}
 			for _, fn := range x.P.FuncsIn(convPkg) {
 				if len(fn.Blocks) == 0 {
 					continue
@@ -1755,34 +1753,46 @@ func init() {
 				if !strings.HasSuffix(file, "from_pb.go") && !strings.HasSuffix(file, "from_bytes.go") {
 					continue
 				}
+				k := 0
 				for _, b := range fn.Blocks {
 					for _, ins := range b.Instrs {
-						reads := false
+						var data ssa.Value
 						switch t := ins.(type) {
 						case *ssa.Call:
 							if o := prog.CallObj(t); o != nil && o.Name() == "GetData" {
 								if sig, ok := o.Type().(*types.Signature); ok && sig.Recv() != nil && namedOf(sig.Recv().Type()) != nil && namedOf(sig.Recv().Type()).Obj().Name() == "Presence" {
-									reads = true
+									data = t
 								}
 							}
-						case *ssa.FieldAddr:
-							if f := prog.FieldVar(t); f != nil && f.Name() == "Data" && namedOf(t.X.Type()) != nil && namedOf(t.X.Type()).Obj().Name() == "Presence" && strings.Contains(namedOf(t.X.Type()).Obj().Pkg().Path(), "/api/") {
-								reads = true
+						case *ssa.UnOp:
+							if f := prog.LoadedField(t); f != nil && f.Name() == "Data" {
+								if fa, ok := t.X.(*ssa.FieldAddr); ok && namedOf(fa.X.Type()) != nil && namedOf(fa.X.Type()).Obj().Name() == "Presence" && strings.Contains(namedOf(fa.X.Type()).Obj().Pkg().Path(), "/api/") {
+									data = t
+								}
 							}
 						}
-						if reads {
-							if _, dup := at[prog.FnName(fn)]; !dup {
-								readers = append(readers, prog.FnName(fn))
-								at[prog.FnName(fn)] = x.pos(ins)
+						if data == nil {
+							continue
+						}
+						k++
+						n++
+						// the reader normalises: the value read is compared with nil somewhere in the function
+						normalises := false
+						for _, bb := range fn.Blocks {
+							iff := prog.IfOf(bb)
+							if iff == nil {
+								continue
+							}
+							if bo, ok := iff.Cond.(*ssa.BinOp); ok && (bo.Op == token.EQL || bo.Op == token.NEQ) {
+								if (prog.IsNilConst(bo.Y) && prog.Reaches(bo.X, func(w ssa.Value) bool { return w == data })) || (prog.IsNilConst(bo.X) && prog.Reaches(bo.Y, func(w ssa.Value) bool { return w == data })) {
+									normalises = true
+								}
 							}
 						}
+						x.check(normalises, fmt.Sprintf("func=%s presence-data-read#%d absent-map-normalised", prog.FnName(fn), k), x.pos(ins),
+							"the decoder that reads the data tests it for nil", "the data of an api.Presence message is read without a test for an absent map: a participant without initial presence decodes to nil on this path and to {} on the others")
 					}
 				}
-			}
-			sortStrings(readers)
-			n = len(readers)
-			if n >= 1 {
-				x.check(n == 1, "presence-data-read-in-one-decoder", at[readers[0]], "read in "+readers[0]+" only", "the data of an api.Presence message is read in several decoders ("+strings.Join(readers, ", ")+"): only one of them normalises an absent map")
 			}
 			if n < 1 {
 				x.C.Vacuous(x.id()+" readers of api.Presence.Data", n, 1)
